@@ -99,7 +99,7 @@ package keeper
 // computed from it (the same formula FinishOrder settles against), all of it goes into the pair escrow, and the stored
 // order starts with remaining offer coin = offer coin and nothing received.
 //@ func (k Keeper) LimitOrder
-//@   property C07
+//@   property C07, C04
 //@   let pair = k.GetPair(ctx, msg.AppId, msg.PairId).0
 //@   let esc = addr(pair.EscrowAddress)
 //@   let own = addr(msg.Orderer)
@@ -112,12 +112,13 @@ package keeper
 //@   ensures #c07-never-more-than-offered: result1 == nil ==> result0.OfferCoin.Amount + feeOf(rate, result0.OfferCoin.Amount) <= msg.OfferCoin.Amount && result0.OfferCoin.Denom == d
 //@   ensures #c07-order-starts-unspent: result1 == nil ==> result0.RemainingOfferCoin == result0.OfferCoin && result0.ReceivedCoin.Amount == 0 && result0.Orderer == msg.Orderer && result0.AppId == msg.AppId && result0.PairId == msg.PairId
 //@   ensures #c07-order-stored: result1 == nil ==> k.GetOrder(ctx, msg.AppId, msg.PairId, result0.Id).1 && k.GetOrder(ctx, msg.AppId, msg.PairId, result0.Id).0 == result0
+//@   ensures [C04] #c04-escrow-backs-order-and-fee-reserve: result1 == nil ==> bal(esc, d) == old(bal(esc, d)) + result0.RemainingOfferCoin.Amount + feeOf(rate, result0.OfferCoin.Amount)
 
 // Market order placement (C07), same statement as for limit orders: what is taken from the orderer is exactly the order's offer coin plus the swap-fee reserve
 // computed from it (the same formula FinishOrder settles against), all of it goes into the pair escrow, and the stored
 // order starts with remaining offer coin = offer coin and nothing received.
 //@ func (k Keeper) MarketOrder
-//@   property C07
+//@   property C07, C04
 //@   let pair = k.GetPair(ctx, msg.AppId, msg.PairId).0
 //@   let esc = addr(pair.EscrowAddress)
 //@   let own = addr(msg.Orderer)
@@ -130,6 +131,7 @@ package keeper
 //@   ensures #c07-never-more-than-offered: result1 == nil ==> result0.OfferCoin.Amount + feeOf(rate, result0.OfferCoin.Amount) <= msg.OfferCoin.Amount && result0.OfferCoin.Denom == d
 //@   ensures #c07-order-starts-unspent: result1 == nil ==> result0.RemainingOfferCoin == result0.OfferCoin && result0.ReceivedCoin.Amount == 0 && result0.Orderer == msg.Orderer && result0.AppId == msg.AppId && result0.PairId == msg.PairId
 //@   ensures #c07-order-stored: result1 == nil ==> k.GetOrder(ctx, msg.AppId, msg.PairId, result0.Id).1 && k.GetOrder(ctx, msg.AppId, msg.PairId, result0.Id).0 == result0
+//@   ensures [C04] #c04-escrow-backs-order-and-fee-reserve: result1 == nil ==> bal(esc, d) == old(bal(esc, d)) + result0.RemainingOfferCoin.Amount + feeOf(rate, result0.OfferCoin.Amount)
 
 // Cancel-all, per-order step (C07): the step never asks the iteration over the orderer's orders to stop (so every order is
 // visited, in every pair), and an order that is selected (no pair filter, or its pair is in the filter), not yet cancelled
